@@ -6,6 +6,7 @@ import CstModel.Model.Tree
 import CstModel.Model.Query
 import CstModel.Model.SyntaxText
 import CstModel.Model.Conc
+import CstModel.Model.Teardown
 import CstModel.Model.DataSlot
 import CstModel.Model.MemModel
 namespace Cst.Drv
@@ -34,6 +35,8 @@ structure DState where
   views : Array (Nat × Red.View) := #[]
   conc : Option Conc.Sys := none
   concFrees : Nat := 0
+  /-- the slots as they were when the teardown was triggered -/
+  concTearSlots : List (Option (Bool × Nat)) := []
   mem : Option Mem.Sys := none
   /-- data slots by name, and the number of threads of the current execution -/
   data : List (String × DataSlot.Sys) := []
